@@ -1,5 +1,5 @@
 import Driver.C08Mon
-import OidcModel.Model.Resource
+import OidcModel.Model.ResourceFlow
 open Kv Drv
 
 namespace Drv.C08
@@ -7,47 +7,91 @@ namespace Drv.C08
 structure FullSt where
   mon : _root_.C08.MonState := {}
   mod : Res.St := {}
+  atp : ResATProvider := {}
   clients : List OPClient := []
-  router : String := "provider"
+  router : Res.Router := .provider
   deriving Inhabited
 
-def presentedTok (l : Line) : Res.Presented :=
-  match str l "p.kind" with
-  | "decrypts" => .decrypts (str l "p.plain")
-  | "jwt" => .jwt (str l "p.jti") (str l "p.sub")
-  | _ => .nothing
+/-- the inputs of the request on this line: clock, issuer it is addressed to, and what the real AES / go-jose code made of the
+    presented string (the oracles of the model) -/
+def envOf (clients : List OPClient) (l : Line) : Res.Env :=
+  let tok := parseToken l
+  let plain := opt l "p.plain"
+  { now := int l "now0", issuer := str l "iss",
+    decrypt := fun _ => match plain with | some s => .ok s | none => .error "decrypt",
+    tokenOf := fun _ => tok, jtiOf := fun _ => str l "p.jti",
+    -- what the Provider router's request parsers read: the registrations and `Provider.JWTProfileVerifier(ctx)`
+    clientStore := { clients := clients }, postSupported := true, pkjwtSupported := true,
+    jwtProfileVerifier := { Issuer := str l "iss", MaxAgeIAT := 3600 * Go.second, Offset := Go.second, Storage := _root_.C04.registry clients } }
 
 /-- who the caller is authenticated as, by the reference storage's rules (model side) -/
 def modelCaller (fs : FullSt) (l : Line) (now : Int) (allowPublic : Bool) : Option String :=
   (_root_.C08.callerOf fs.mon now (presented l) allowPublic).map (·.id)
 
+/-- the HTTP request of an introspection / revocation line as the REGENERATED parsers of the Provider router see it -/
+def requestOf (fs : FullSt) (l : Line) (now : Int) : ResHttpReq :=
+  let auth := str l "auth"
+  let cid := str l "cid"
+  let inForm := auth == "post" || auth == "id-only"
+  { Form := { Token := str l "raw", TokenTypeHint := str l "hint",
+              ClientID := if inForm then cid else "", ClientSecret := if auth == "post" then str l "secret" else "",
+              ClientAssertion := if auth == "assertion" then "assertion" else "",
+              ClientAssertionType := if auth == "assertion" then Const.ClientAssertionTypeJWTAssertion else "" },
+    basic := if auth == "basic" then some (cid, str l "secret") else none,      -- ids and secrets of the stream need no percent-escaping
+    assertionToken := parseToken l,
+    -- `ClientIDFromRequest`: Basic auth or an assertion authenticates, a client_id in the form only identifies
+    identified :=
+      if inForm then (if cid == "" then .error "ErrInvalidClient" else .ok (cid, false))
+      else match modelCaller fs l now false with
+        | some c => .ok (c, true)
+        | none => .error "ErrInvalidClient" }
+
+def showRef : Option Res.Ref → String
+  | some (.at id) => "accepted:" ++ id
+  | some (.rt t) => "accepted:" ++ t
+  | none => "refused"
+
 def step (fs : FullSt) (l : Line) : FullSt × String :=
   let (mon', v) := monStep fs.mon l
   let now := int l "now0"
+  let e := envOf fs.clients l
+  let raw := str l "raw"
   let (mod', modelS, obsS) : Res.St × String × String :=
     match str l "op" with
     | "reset" => ({}, "reset", "reset")
-    | "issue" => ((Res.step fs.mod (.issue { id := str l "id", client := str l "client", subject := str l "sub", audience := list l "aud" })).1, "issued", "issued")
-    | "expire" => ((Res.step fs.mod (.expire (str l "id"))).1, "expired", "expired")
+    | "issue" =>
+      let rt : Option Res.RTok := if str l "rt" != "" then some { token := str l "rt", client := str l "client", subject := str l "sub", access := str l "id" } else none
+      ((Res.step fs.atp fs.mod (.issue { id := str l "id", client := str l "client", subject := str l "sub", audience := list l "aud", refresh := str l "rt" } rt)).1,
+       "issued", "issued")
+    | "expire" => ((Res.step fs.atp fs.mod (.expire (if str l "kind" == "rt" then .rt (str l "id") else .at (str l "id")))).1, "expired", "expired")
     | "userinfo" =>
-      let r := Res.userinfo fs.mod (presentedTok l)
-      (fs.mod, (match r with | .claims s => "200:" ++ s | .unauthorized => "401" | .forbidden => "403"),
+      (fs.mod, (match Res.userinfo fs.router fs.atp e fs.mod raw with | .claims u => "200:" ++ u.Subject | .refused c => toString c),
        (if nat l "o.status" == 200 then "200:" ++ str l "o.sub" else toString (nat l "o.status")))
     | "introspect" =>
-      -- the Provider router's introspection authenticates by Basic auth or assertion only (ClientIDFromRequest)
-      let caller := if fs.router == "provider" && str l "auth" == "post" then none else modelCaller fs l now false
-      let r := Res.introspect fs.mod caller (presentedTok l)
-      (fs.mod, (match r with | .active _ => "active" | .inactive => "inactive" | .unauthorized => "unauthorized"),
+      -- Provider router: the whole request through the regenerated parser; legacy server: the caller `authenticateResourceClient` establishes
+      let r := if fs.router == .provider then Res.introspectRequest fs.atp e fs.mod (requestOf fs l now)
+               else Res.introspect fs.router fs.atp e fs.mod (modelCaller fs l now false) raw
+      (fs.mod, (match r with
+                | .answer r => if r.Active then "active" else "inactive"
+                | .unauthorized => "unauthorized"),
        (if bool l "o.active" then "active" else if nat l "o.status" == 200 then "inactive" else "unauthorized"))
     | "revoke" =>
-      let (s', r) := Res.revoke fs.mod (modelCaller fs l now true) (presentedTok l)
+      let (s', r) := if fs.router == .provider then Res.revokeRequest fs.atp e fs.mod (requestOf fs l now)
+                     else Res.revoke fs.router fs.atp e fs.mod (modelCaller fs l now true) (str l "hint") raw
       (s', (match r with | .ok => "ok" | .refused => "refused"), (if nat l "o.status" == 200 then "ok" else "refused"))
-    | "endsession" => (if bool l "o.terminated" then Res.terminate fs.mod (str l "sub") (str l "client") else fs.mod, "done", "done")
+    | "endsession" => (if bool l "o.terminated" then fs.mod.TerminateSession (str l "sub") (str l "client") else fs.mod, "done", "done")
     | "exchange" =>
-      (fs.mod, (if Res.exchangeAccepts fs.mod (presentedTok l) then "accepted" else "refused"), (if bool l "o.success" then "accepted" else "refused"))
+      (fs.mod, (if (Res.exchange fs.atp e fs.mod (str l "stype" == "refresh") raw).isSome then "accepted" else "refused"),
+       (if bool l "o.success" then "accepted" else "refused"))
+    | "refresh" =>
+      let (s', r) := Res.step fs.atp fs.mod (.refresh raw)
+      (s', (if r.isSome then "accepted" else "refused"), (if bool l "o.success" then "accepted" else "refused"))
     | _ => (fs.mod, "?", "?")
   let agree := modelS == obsS
-  ({ fs with mon := mon', mod := mod', router := if str l "op" == "reset" then str l "router" else fs.router },
-   s!"case={str l "case"} class={cls l} model={modelS} observed={obsS} monitor={showMon v} agree={if agree then 1 else 0}")
+  let fs' : FullSt :=
+    if str l "op" == "reset" then
+      { mon := mon', mod := {}, atp := { accessTokenKeySet := parseKeySet l "ks." }, clients := Drv.Flow.parseClients l, router := if str l "router" == "legacy" then .legacy else .provider }
+    else { fs with mon := mon', mod := mod' }
+  (fs', s!"case={str l "case"} class={cls l} model={modelS} observed={obsS} monitor={showMon v} agree={if agree then 1 else 0}")
 
 end Drv.C08
